@@ -147,6 +147,52 @@ def run(ctx):
                ok, f'written by {sorted({qualname_of(fn) for _, fn, _ in runtime[q]})}; not cleared, not in the exemption table')
     ctx.floor('C14.R4', len(runtime), 9, 'run-time tables written from functions')
 
+    # ---- R13 ---------------------------------------------------------------------
+    ctx.rule('C14.R13', 'objects used as memo keys are equal only if what their hash was computed from is equal: for every class of the '
+             'package that defines __eq__ and stores a hash computed as hash((a, b, …)) / hash(x) in its constructor, __eq__ '
+             'compares (== or is, self against other) an attribute holding each hashed component — an __eq__ that trusts the '
+             'hash alone makes two hints with colliding hashes (hash(-1) == hash(-2)) share one memoised check')
+    n13 = 0
+    for mn, m in sorted(repo.modules.items()):
+        for c in [x for x in ast.walk(m.tree) if isinstance(x, ast.ClassDef)]:
+            meths = {f.name: f for f in c.body if isinstance(f, ast.FunctionDef)}
+            eq = meths.get('__eq__')
+            if eq is None:
+                continue
+            for ctor in (meths.get('__init__'), meths.get('__new__')):
+                if ctor is None:
+                    continue
+                hs = [a for a in ast.walk(ctor) if isinstance(a, ast.Assign) and isinstance(a.targets[0], ast.Attribute)
+                      and dotted(a.targets[0].value) == 'self' and 'hash' in a.targets[0].attr and isinstance(a.value, ast.Call)
+                      and dotted(a.value.func) == 'hash' and a.value.args]
+                if not hs:
+                    continue
+                e = hs[0].value.args[0]
+                comps = list(e.elts) if isinstance(e, ast.Tuple) else [e]
+                names = []
+                for x in comps:
+                    if isinstance(x, ast.Call) and dotted(x.func) == 'id' and x.args:
+                        x = x.args[0]
+                    if isinstance(x, ast.Name):
+                        names.append(x.id)
+                stored = {}
+                for a in ast.walk(ctor):
+                    if isinstance(a, ast.Assign) and isinstance(a.targets[0], ast.Attribute) and dotted(a.targets[0].value) == 'self' \
+                            and isinstance(a.value, ast.Name):
+                        stored.setdefault(a.value.id, set()).add(a.targets[0].attr)
+                compared = set()
+                for cmp_ in [x for x in ast.walk(eq) if isinstance(x, ast.Compare) and len(x.ops) == 1 and isinstance(x.ops[0], (ast.Eq, ast.Is))]:
+                    l, r = cmp_.left, cmp_.comparators[0]
+                    if isinstance(l, ast.Attribute) and isinstance(r, ast.Attribute) and l.attr == r.attr \
+                            and {dotted(l.value), dotted(r.value)} == {'self', 'other'}:
+                        compared.add(l.attr)
+                missing = [nm for nm in names if stored.get(nm) and not (stored[nm] & compared)]
+                n13 += 1
+                ctx.ob('C14.R13', f'eq-compares-what-hash-hashes:{mn.rsplit(".", 1)[-1]}.{c.name}', m.where(eq),
+                       'equality compares every hashed component', not missing,
+                       f'hashed but not compared by __eq__: {missing} (compared attributes: {sorted(compared)})')
+    ctx.floor('C14.R13', n13, 1, 'classes with a stored hash and an __eq__')
+
     # ---- R12 ---------------------------------------------------------------------
     ctx.rule('C14.R12', 'what a scope-dependent hint means is not memoised with the hint: every reducer under beartype/_check/convert '
              'that resolves a hint through the current call (call_curr.resolve_hint_pep484_ref_str — the meaning depends on the '
